@@ -21,6 +21,8 @@ def main():
     import sudachipy
     from sudachipy import Dictionary, SplitMode, MorphemeList
 
+    import warnings
+    warnings.simplefilter("ignore")
     modes = {"A": SplitMode.A, "B": SplitMode.B, "C": SplitMode.C}
     d = Dictionary(config_path=os.path.join(sdir, "sudachi.json"), resource_dir=sdir)
     cases = [json.loads(l) for l in open(os.path.join(sdir, "cases.jsonl"), encoding="utf-8")]
@@ -68,6 +70,33 @@ def main():
         if len(ms) != len(exp):
             mismatch("length", "%d morphemes, expected %d" % (len(ms), len(exp)), {"text": text, "mode": mode})
             continue
+        # the list object itself
+        out["list_api_checks"] = out.get("list_api_checks", 0) + 1
+        try:
+            problems = []
+            if ms.size() != len(exp) or bool(ms) != (len(exp) > 0):
+                problems.append("size()=%r bool=%r for %d morphemes" % (ms.size(), bool(ms), len(exp)))
+            if str(ms) != " ".join(e["raw_surface"] for e in exp):
+                problems.append("str(list)=%r" % str(ms))
+            if [m.raw_surface() for m in ms] != [e["raw_surface"] for e in exp]:
+                problems.append("iteration gives %r" % [m.raw_surface() for m in ms][:6])
+            if len(exp):
+                if ms[-1].raw_surface() != exp[-1]["raw_surface"] or ms[len(exp) - 1].end() != exp[-1]["end"] or ms[-len(exp)].begin() != exp[0]["begin"]:
+                    problems.append("negative indexing disagrees with iteration")
+            for bad in (len(exp), -len(exp) - 1):
+                try:
+                    ms[bad]
+                    problems.append("index %d of a list of %d does not raise IndexError" % (bad, len(exp)))
+                except IndexError:
+                    pass
+            if case.get("internal_cost") is not None and ms.get_internal_cost() != case["internal_cost"]:
+                problems.append("get_internal_cost()=%r, library %r" % (ms.get_internal_cost(), case["internal_cost"]))
+            for pr in problems:
+                mismatch("list_api", pr, {"text": text, "mode": mode})
+        except (KeyboardInterrupt, SystemExit):
+            raise
+        except BaseException as ex:  # noqa
+            out["python_exceptions"] += 1
         for i, (m, e) in enumerate(zip(ms, exp)):
             v = view(m)
             out["morphemes"] += 1
@@ -103,6 +132,25 @@ def main():
                         raise
                     except BaseException:  # noqa
                         out["python_exceptions"] += 1
+            # the raw word info object and the small dunder methods
+            try:
+                wi = m.get_word_info()
+                ew = e["word_info"]
+                out["word_infos_compared"] = out.get("word_infos_compared", 0) + 1
+                for k in ("surface", "head_word_length", "pos_id", "normalized_form", "dictionary_form_word_id", "dictionary_form", "reading_form"):
+                    if getattr(wi, k) != ew[k]:
+                        mismatch("field", "morpheme %d get_word_info().%s: python %r, library %r" % (i, k, getattr(wi, k), ew[k]), {"text": text, "mode": mode})
+                for k in ("a_unit_split", "b_unit_split", "word_structure", "synonym_group_ids"):
+                    if list(getattr(wi, k)) != ew[k]:
+                        mismatch("field", "morpheme %d get_word_info().%s: python %r, library %r" % (i, k, list(getattr(wi, k)), ew[k]), {"text": text, "mode": mode})
+                if wi.length() != ew["head_word_length"]:
+                    mismatch("field", "morpheme %d get_word_info().length()=%r, head_word_length %r" % (i, wi.length(), ew["head_word_length"]), {"text": text, "mode": mode})
+                if len(m) != e["end"] - e["begin"] or str(m) != v["surface"]:
+                    mismatch("field", "morpheme %d: len()=%r str()=%r for code points %d..%d, surface %r" % (i, len(m), str(m), e["begin"], e["end"], v["surface"]), {"text": text, "mode": mode})
+            except (KeyboardInterrupt, SystemExit):
+                raise
+            except BaseException as ex:  # noqa
+                out["python_exceptions"] += 1
             if text[m.begin():m.end()] != m.raw_surface():
                 mismatch("code_point_slice", "text[begin:end]=%r but raw_surface=%r" % (text[m.begin():m.end()], m.raw_surface()),
                          {"text": text, "mode": mode})
